@@ -13,6 +13,13 @@ clock without jitter; the `while True: ...; time.sleep(interval)` loop and
 the election lock of sproc/trace.py are replaced by one pass of the loop body
 per `archive` op (calling sequence and argument wiring copied from
 treadmill/sproc/trace.py:97-134).
+
+The world does not hold still during a pass: before every ZooKeeper call of
+the archiver (simkit.zk call_hook) the virtual clock may advance (every call
+costs time, some a lot) and the master / the nodes may act (instances are
+scheduled, their events published, short jobs finish) - all of it written
+in the `world` entry of the archive op (World._world_hook); the oracle
+judges every event at the moment it was deleted from /trace.
 """
 
 import os
@@ -225,7 +232,8 @@ class World:
             'api_download_checks': 0, 'api_list_checks': 0,
             'oracle_evaluations': 0}
         self.faults = {'crash': 0, 'conn_loss': 0, 'delete_error': 0,
-                       'conn_outage': 0}
+                       'conn_outage': 0, 'world_interleave': 0,
+                       'slow_call': 0}
         self.crash_phase = {}
         if resume is None:
             self._setup_static()
@@ -314,11 +322,18 @@ class World:
             self.admin, z.path.scheduled(op['inst'])))
 
     def op_event(self, op):
+        """`when`: the timestamp the publishing node put into the event; or
+        `age`: published now by a node whose clock read `age` seconds ago
+        (events published while the archiver runs: the instant is decided
+        by the interleaving, not by the generator)."""
+        when = op.get('when')
+        if when is None:
+            when = _stamp(self.clock.peek() - float(op.get('age', 0.0)))
         saved = app_zk._HOSTNAME
         app_zk._HOSTNAME = op['host']
         try:
             self._populate('publish', lambda: app_zk.publish(
-                self.node, op['when'], op['inst'], op['type'], op['data'],
+                self.node, when, op['inst'], op['type'], op['data'],
                 op.get('payload')))
         finally:
             app_zk._HOSTNAME = saved
@@ -400,6 +415,64 @@ class World:
         elif phase == 'cleanup_server_trace_history':
             server_zk.cleanup_server_trace_history(client, par['max_t'])
 
+    WORLD_ACTS = ('schedule', 'unschedule', 'unplace', 'event')
+
+    def _world_hook(self, plan, state):
+        """The pre-emption point before every ZooKeeper call of the archiver
+        (simkit.zk call_hook): the rest of the cell goes on while a pass
+        runs.  `plan` (the `world` entry of the archive op, all of it
+        recorded, nothing decided here):
+          write_cost, read_cost
+                  virtual seconds every mutating / every reading ZooKeeper
+                  call of the pass takes (a write goes through the quorum,
+                  a read is answered by the server the session is on)
+          points  [{'phase': p, 'call': k, 'dt': s, 'acts': [op, ...]}]:
+                  before the k-th ZooKeeper call the archiver makes in
+                  phase p, `s` more seconds pass (a slow ensemble) and the
+                  master / the nodes do `acts` (schedule, event with a
+                  relative `age`, unschedule, unplace ops); a point the pass
+                  never reaches does nothing
+        Always installed: it notes the time of every call for the oracle."""
+        plan = plan or {}
+        wcost = max(0.0, float(plan.get('write_cost', 0.0)))
+        rcost = max(0.0, float(plan.get('read_cost', 0.0)))
+        points = {}
+        for point in plan.get('points') or ():
+            key = (point.get('phase'), int(point.get('call', 0)))
+            points.setdefault(key, []).append(point)
+        count = {}
+        clock = self.clock
+        zk = self.zk
+
+        def hook(path):
+            phase = state.phase
+            k = count[phase] = count.get(phase, 0) + 1
+            # the call is issued now; what it costs and what the world does
+            # meanwhile comes before it is applied
+            state.note_call(zk, clock.peek())
+            # (simkit.zk names the path of a read; a mutating call passes
+            # none)
+            cost = wcost if path is None else rcost
+            if cost:
+                clock.advance(cost)
+            for point in points.pop((phase, k), ()):
+                dt = max(0.0, float(point.get('dt', 0.0)))
+                acts = [act for act in point.get('acts') or ()
+                        if act.get('op') in self.WORLD_ACTS]
+                if dt:
+                    clock.advance(dt)
+                    self.faults['slow_call'] += 1
+                self.log.ev('world', phase, k, dt, len(acts))
+                if not acts:
+                    continue
+                self.faults['world_interleave'] += 1
+                for act in acts:
+                    self.log.ev('act', act)
+                    self.apply(act)
+                    key = 'midpass_' + act['op']
+                    self.probes[key] = self.probes.get(key, 0) + 1
+        return hook
+
     def op_archive(self, op):
         """One pass of the cron's loop body in a fresh process (session)."""
         par = dict(ARCHIVE_DEFAULTS)
@@ -415,6 +488,7 @@ class World:
                                  'kind': fault['kind'],
                                  'applied': bool(fault.get('applied'))}
         injector = ArchiverFaults(client, fault)
+        client.call_hook = self._world_hook(op.get('world'), state)
         outcome = 'complete'
         err_text = None
         try:
@@ -444,6 +518,7 @@ class World:
                     break
         finally:
             client.fault_plan = None
+            client.call_hook = None
         fired = list(client.fired)
         if injector.fired:
             kind = injector.fault['kind']
@@ -496,6 +571,7 @@ class World:
             self.probes['server_events_archived'] += stats['server_archived']
             self.probes['events_kept_young'] += stats['kept_young']
             self.probes['events_kept_scheduled'] += stats['kept_scheduled']
+            self._world_probes(state, stats, par)
             self.probes['history_pruned'] += stats['pruned']
             self.probes['policy_pruned_events'] += stats['exempt']
             if outcome != 'complete' and stats['both_live_and_archived']:
@@ -507,6 +583,41 @@ class World:
                     # after other nodes were already deleted
                     self.probes['delete_fault_after_partial_delete'] += 1
         self.fingerprint_state()
+
+    def _world_probes(self, state, stats, par):
+        """Reach probes of the concurrent world (present only in runs that
+        have one)."""
+        if not state.published and state.sched_now == state.scheduled:
+            return
+        probes = self.probes
+        t_end = state.t_end.get('cleanup_trace')
+        t_begin = state.t_begin.get('cleanup_trace')
+        horizon = None
+        if t_end is not None and t_begin is not None:
+            horizon = t_end - par['expiry_t']
+            if t_end - t_begin > par['expiry_t']:
+                probes['cleanup_trace_outlasted_expiry'] = probes.get(
+                    'cleanup_trace_outlasted_expiry', 0) + 1
+        probes['events_published_midpass'] = probes.get(
+            'events_published_midpass', 0) + len(state.published)
+        probes['midpass_events_archived_legitimately'] = probes.get(
+            'midpass_events_archived_legitimately', 0) + \
+            stats.get('archived_published_meanwhile', 0)
+        # what a pass that trusts an old reading of /scheduled would get
+        # wrong: events of an instance scheduled after the pass started
+        # (still scheduled) that were older than the expiry before
+        # cleanup_trace ended
+        risky = 0
+        for inst, stamp, _name in state.published.values():
+            if inst in state.sched_now and inst not in state.scheduled and \
+                    horizon is not None and stamp is not None and \
+                    stamp < horizon:
+                risky += 1
+        if risky:
+            probes['midpass_scheduled_events_expired_before_pass_end'] = \
+                probes.get(
+                    'midpass_scheduled_events_expired_before_pass_end',
+                    0) + risky
 
     def op_check(self, _op):
         """The oracle on the tree as it is now (obligations of the latest
@@ -559,10 +670,11 @@ class Generator:
     def __init__(self, config, streams):
         self.cfg = config
         self.rng = streams.get('gen')
+        self.wrng = streams.get('world')
         self.next_id = {}
 
-    def _inst(self):
-        rng = self.rng
+    def _inst(self, rng=None):
+        rng = rng or self.rng
         shard = rng.choice(self.cfg['shards'])
         k = self.next_id.get(shard, 0)
         self.next_id[shard] = k + 1
@@ -743,7 +855,186 @@ class Generator:
                            'when': _stamp(now - rng.choice(ages) - n * 0.01),
                            'type': 'service_running',
                            'data': 'u%04d.web' % (2000 + n)}
-        yield dict(par, op='archive')
+        if main and rng.random() < 0.35:
+            # a node whose clock runs ahead publishes an event (stamped in
+            # the future of the archiver's host)
+            inst, host, _role = rng.choice(insts)
+            yield {'op': 'event', 'inst': inst, 'host': host,
+                   'when': _stamp(world.clock.peek() +
+                                  rng.choice([0.3, 2.0, 30.0])),
+                   'type': 'service_running', 'data': 'u0002.web'}
+        mode = self.cfg.get('world') if main else None
+        if mode:
+            yield dict(par, op='archive',
+                       world=self.world_plan(mode, par, insts))
+        else:
+            yield dict(par, op='archive')
+
+    # -- the world while the archiver runs ------------------------------
+    def _new_instance(self, acts, amax, finish):
+        """Acts of an instance the master schedules now (a new id: the
+        master never reuses one) with the events the master and the node
+        publish in its first moments; finish: 'now' (a short job that is
+        already over), or None (goes on running).  -> (inst, host)"""
+        rng = self.wrng
+        inst = self._inst(rng)
+        host = rng.choice(HOSTS)
+        uniq = 'w%04d' % rng.randint(0, 9999)
+        acts.append({'op': 'schedule', 'inst': inst, 'host': host})
+        life = [('pending', 'created'), ('scheduled', '%s:' % host),
+                ('configured', uniq)]
+        if rng.random() < 0.5:
+            life.append(('service_running', '%s.web' % uniq))
+        age = amax
+        step = amax / (len(life) + 2)
+        for etype, data in life:
+            acts.append({'op': 'event', 'inst': inst, 'host': host,
+                         'age': round(age, 6), 'type': etype, 'data': data})
+            age -= step
+        if finish == 'now':
+            acts.append(self._finish_act(inst, host, max(age, 0.0)))
+        return inst, host
+
+    def _finish_act(self, inst, host, age):
+        """The node reports the end of the instance (real publish: writes
+        /finished/<inst> and removes /scheduled/<inst>)."""
+        etype, data = self.wrng.choice([('finished', '0.0'),
+                                        ('finished', '1.0'),
+                                        ('killed', 'oom')])
+        return {'op': 'event', 'inst': inst, 'host': host,
+                'age': round(age, 6), 'type': etype, 'data': data}
+
+    def world_plan(self, mode, par, insts):
+        """What the rest of the cell does between two ZooKeeper calls of
+        the pass (see World._world_hook).  Realism bounds that the plan
+        keeps (the archiver reads /scheduled, then lists the shards: an
+        instance scheduled in between must not already have events older
+        than the expiry when its shard is listed): an event is stamped at
+        most `amax` <= expiry/15 before it is published, instance ids are
+        new, and the reads after the reading of /scheduled (at most 8) take
+        less than 0.4 expiry together (reads are cheap, one of them may be
+        slow by at most expiry/4)."""
+        rng = self.wrng
+        exp_t = float(par['expiry_t'])
+        batch = int(par['trace_batch'])
+        amax = min(2.0, exp_t / 15.0)
+        # calls of cleanup_trace: 1 /scheduled, 2 /trace, then the shards
+        # (the configured ones and the one a bulk op makes), then per batch
+        # one create and two calls (get_children, delete) per event
+        nlist = 2 + len(self.cfg['shards']) + (1 if self.cfg.get('bulk')
+                                               else 0)
+        points = []
+        if mode['kind'] == 'long_run':
+            costs = {'write_cost': round(exp_t / mode['cost_div'], 6),
+                     'read_cost': rng.choice([0.0, 0.0, 0.001,
+                                              round(exp_t / 1000.0, 6)])}
+            # the master schedules a service and a burst of short jobs
+            # comes (and partly goes) at one instant early in the pass ...
+            first = rng.choice([2, 3, nlist + 1,
+                                nlist + rng.randint(2, 2 * batch + 1)])
+            acts = []
+            self._new_instance(acts, amax, None)
+            running = []
+            nev = 0
+            while nev < batch + 2:
+                before = len(acts)
+                finish = rng.choice(['now', 'now', 'later', None])
+                inst, host = self._new_instance(
+                    acts, amax * 0.6, 'now' if finish == 'now' else None)
+                if finish == 'later':
+                    running.append((inst, host))
+                nev += len(acts) - before - 1
+            points.append({'phase': 'cleanup_trace', 'call': first,
+                           'dt': 0.0, 'acts': acts})
+            # ... the others finish a little later
+            for inst, host in running:
+                points.append({'phase': 'cleanup_trace',
+                               'call': first + rng.randint(1, 4 * batch),
+                               'dt': 0.0,
+                               'acts': [self._finish_act(inst, host, 0.05)]})
+            return dict(costs, points=points)
+        # light: a few things happen at a few points of the pass
+        costs = {'write_cost': rng.choice([0.002, 0.05,
+                                           round(exp_t / 200.0, 6),
+                                           round(exp_t / 60.0, 6)]),
+                 'read_cost': rng.choice([0.0, 0.0, 0.0005, 0.01])}
+        if rng.random() < 0.5:
+            # an ensemble that answers at once: the instants of the pass
+            # are those of a pass in a world that holds still (timestamps a
+            # few microseconds from the expiry keep their side)
+            costs = {'write_cost': 0.0, 'read_cost': 0.0}
+        gone = [i for i in insts if i[2] in ('finished', 'refinished',
+                                             'deleted')]
+        running = [i for i in insts if i[2] == 'running']
+        spiked = set()
+        started = []
+        for _ in range(rng.randint(2, 5)):
+            phase = rngmod.weighted(rng, [['cleanup_trace', 6]] + [
+                [ph, 1] for ph in oracle.PHASES if ph != 'cleanup_trace'])
+            call = rng.choice([1, 2, 2, 3, nlist, nlist + 1, nlist + 2,
+                               nlist + rng.randint(3, 20)])
+            dt = 0.0
+            if phase not in spiked and rng.random() < 0.3:
+                spiked.add(phase)
+                dt = round(exp_t / rng.choice([4.0, 6.0, 10.0, 50.0]), 6)
+            acts = []
+            for _n in range(rng.randint(1, 3)):
+                what = rng.choice(['service', 'short_job', 'job_start',
+                                   'job_end', 'late_event', 'finish',
+                                   'delete'])
+                if what == 'service':
+                    self._new_instance(acts, amax, None)
+                elif what == 'short_job':
+                    self._new_instance(acts, amax, 'now')
+                elif what == 'job_start':
+                    started.append(self._new_instance(acts, amax, None))
+                elif what == 'job_end' and started:
+                    # (at an earlier point of the list, not necessarily of
+                    # the pass: ending a job that has not started is a
+                    # stale event of an unknown instance)
+                    inst, host = started.pop(0)
+                    acts.append(self._finish_act(inst, host, 0.05))
+                elif what == 'late_event' and gone:
+                    # a late event of an instance that is over, stamped
+                    # when it happened
+                    inst, host, _role = rng.choice(gone)
+                    acts.append({
+                        'op': 'event', 'inst': inst, 'host': host,
+                        'age': round(rng.choice([0.0, 1.0, exp_t / 2.0,
+                                                 exp_t + 5.0, exp_t * 3]), 6),
+                        'type': 'service_exited',
+                        'data': 'w%04d.web.0.0' % rng.randint(0, 9999)})
+                elif what == 'finish' and running:
+                    inst, host, _role = running.pop(
+                        rng.randrange(len(running)))
+                    acts.append(self._finish_act(inst, host, 0.05))
+                elif what == 'delete' and running:
+                    inst, host, _role = running.pop(
+                        rng.randrange(len(running)))
+                    acts.append({'op': 'unschedule', 'inst': inst})
+                    acts.append({'op': 'event', 'inst': inst, 'host': host,
+                                 'age': 0.0, 'type': 'deleted', 'data': ''})
+            points.append({'phase': phase, 'call': call, 'dt': dt,
+                           'acts': acts})
+        if gone and rng.random() < 0.6:
+            # a node that was cut off delivers what it had queued: at least
+            # a batch of events of instances that are long over, before the
+            # archiver lists the shards (old enough: archived by this pass)
+            phase = rng.choice(['prune_trace_evictions',
+                                'prune_trace_service_events',
+                                'cleanup_trace', 'cleanup_trace'])
+            acts = []
+            for n in range(min(batch, 12) + rng.randint(1, 3)):
+                inst, host, _role = rng.choice(gone)
+                acts.append({
+                    'op': 'event', 'inst': inst, 'host': host,
+                    'age': round(exp_t * rng.choice([1.5, 2.0, 3.0]) +
+                                 n * 0.01, 6),
+                    'type': 'service_exited',
+                    'data': 'w%04d.web.%d.0' % (3000 + n, n % 2)})
+            points.append({'phase': phase, 'call': rng.choice([1, 2]),
+                           'dt': 0.0, 'acts': acts})
+        return dict(costs, points=points)
 
     def history(self, world):
         cfg = self.cfg
@@ -834,6 +1125,32 @@ def make_config(prop, tier, rng):
         cfg['archive']['expiry_t'] = rng.choice(LONG_EXPIRIES)
     if rng.random() < 1.0 / 8:
         cfg['archive']['expiry_f'] = rng.choice(LONG_EXPIRIES)
+    # the world goes on while the pass runs (drawn last: the configurations
+    # of the other runs are what they were): in the runs without a bulk
+    # volume 22 % are the staged `long_run` (a backlog of expired events
+    # and a slow ensemble: the pass lasts about two expiries, early in it
+    # the master schedules a service and a burst of short jobs comes and
+    # goes), 28 % have a few random things happen at a few random points
+    cfg['world'] = None
+    draw = rng.random()
+    div = rng.choice([25, 30, 40])
+    extra = rng.random()
+    if cfg['bulk'] is None:
+        if draw < 0.22:
+            batch = cfg['archive']['trace_batch']
+            cfg['world'] = {'kind': 'long_run', 'cost_div': div}
+            cfg['bulk'] = {'kind': 'trace',
+                           'count': 2 * batch + div + div // 2 +
+                                    int(extra * (batch + 1)),
+                           'ninst': rng.choice([1, 3, 4])}
+            cfg['crash_sample'] = 12 if big else 8
+            cfg['conn_loss_points'] = 6 if big else 3
+            cfg['delete_fault_points'] = 6 if big else 3
+            cfg['recover_frac'] = 0.5 if big else 0.2
+            cfg['pre_rounds'] = min(cfg['pre_rounds'], 1)
+            cfg['n_inst'] = min(cfg['n_inst'], 6)
+        elif draw < 0.22 + 0.28:
+            cfg['world'] = {'kind': 'light'}
     return cfg
 
 
@@ -864,6 +1181,11 @@ class TraceSim(enginemod.Engine):
         'Master.create_rootns: the harness creates the root nodes and a '
         'subset of the 256+256 shards',
         'sysinfo.hostname(): _HOSTNAME of the publishing modules set per op',
+        'the rest of the cell while a pass runs: the master (zkutils.put of '
+        '/scheduled/<inst> and the placement) and the publishing nodes (real '
+        'trace.app.zk.publish) act at recorded points between two ZooKeeper '
+        'calls of the archiver; the duration of a ZooKeeper call is a '
+        'recorded number',
     )
 
     def level(self, prop):
@@ -876,7 +1198,9 @@ class TraceSim(enginemod.Engine):
             'snapshots), then a population of scheduled / finished / '
             're-finished / stale-finished / deleted instances over 2-4 '
             'shards with event timestamps far older, just older, just '
-            'younger than the expiry (down to 20 us) and brand new, finished '
+            'younger than the expiry (down to 20 us) and brand new, in 35 % '
+            'of the runs one stamped 0.3 - 30 s in the future (a node whose '
+            'clock runs ahead), finished '
             'records whose mtimes straddle the expiry by 2 ms, server events;'
             ' batch sizes 1-7, max history 1-4; expiries 30 s - 1 h, and in 1 '
             'run in 8 each (trace, finished independently) 86399, 86400, '
@@ -905,7 +1229,27 @@ class TraceSim(enginemod.Engine):
             '(quick) or all (thorough) deletes of the pass a persistent '
             'NoAuthError / NotEmptyError on that node and a ConnectionLoss '
             'outage of 4, 5 or 7 consecutive calls (KazooRetry gives up '
-            'after 5).  Non-trivial: '
+            'after 5).  The world during the pass (runs without a bulk '
+            'volume): 28 % `light` - every mutating ZooKeeper call of '
+            'the pass costs 2 ms - expiry/60 s, every read 0 - 10 ms (in half '
+            'of these runs neither costs anything), at 2-5 '
+            'points (phase, k-th call of the '
+            'phase; mostly in cleanup_trace: before / after the reading of '
+            '/scheduled, around the listing, during the deletes) a call takes '
+            'up to expiry/4 longer and the master schedules new instances '
+            '(events published with them), short jobs start and finish, '
+            'running instances finish or are deleted, late events of '
+            'finished instances arrive (stamped up to 3 expiries ago; in 6 '
+            'of 10 such runs at least a batch of them before the shards are '
+            'listed); 22 % '
+            'the staged `long_run`: a backlog of 2 batches '
+            '+ 37-60 expired events, every mutating call costs expiry/25 - '
+            'expiry/40, a read 0 - expiry/1000 (the pass lasts about two '
+            'expiries), early in cleanup_trace the master '
+            'schedules a service and a burst of short jobs (at least a '
+            'batch of events) comes and partly goes.  All of it is part of '
+            'the archive op; every fault variant re-executes it; a recovery '
+            'pass keeps the call cost only.  Non-trivial: '
             'a crash variant that landed strictly inside the pass (after '
             'the first and before the last write); distinct traces = '
             'distinct fault-free histories.')
@@ -915,7 +1259,17 @@ class TraceSim(enginemod.Engine):
             'ZooKeeper is a single-copy linearizable store; a create of a '
             'snapshot node is atomic',
             'one archiver at a time (the election lock of sproc/trace.py is '
-            'not simulated) and nothing else writes while it runs',
+            'not simulated); while it runs the master and the publishing '
+            'nodes write at the recorded points (`world` entry of the archive '
+            'op), nothing else does',
+            'the world is realistic in what cleanup_trace relies on between '
+            'its reading of /scheduled and its listing of the shards: '
+            'instance ids are never reused, an event is stamped at most '
+            'expiry/15 (<= 2 s) before it is published unless its instance '
+            'is already over, and that stretch of the pass (at most 8 '
+            'ZooKeeper calls) takes less than half an expiry; "still '
+            'scheduled" and "younger than the expiry" are judged at the '
+            'moment an event is deleted from /trace',
             'events deleted by prune_trace_evictions / '
             'prune_trace_service_events (deliberate policy deletions made by '
             'the same cron pass) are outside the property',
@@ -932,8 +1286,57 @@ class TraceSim(enginemod.Engine):
     def make_config(self, prop, tier, rng):
         return make_config(prop, tier, rng)
 
+    def _shrink_world(self, config, ops):
+        """The `world` plan of the archive ops (ddmin cannot look into an
+        op): whole points, then single acts, dropped greedily while the
+        same signature persists.  -> smaller op list or None."""
+        targets = [i for i, op in enumerate(ops) if op.get('op') == 'archive'
+                   and (op.get('world') or {}).get('points')]
+        if not targets:
+            return None
+        ref = self._run(config, 0, ops, False)
+        if ref.violation is None:
+            return None
+        sig = ref.violation['sig']
+        ops = [dict(op) for op in ops]
+        tests = [0]
+
+        def fails(i, points):
+            tests[0] += 1
+            trial = list(ops)
+            trial[i] = dict(ops[i], world=dict(ops[i]['world'],
+                                               points=points))
+            res = self._run(config, 0, trial, False)
+            return res.violation is not None and res.violation['sig'] == sig
+        changed = False
+        for i in targets:
+            points = [dict(p) for p in ops[i]['world']['points']]
+            k = len(points) - 1
+            while k >= 0 and tests[0] < 60:
+                trial = points[:k] + points[k + 1:]
+                if fails(i, trial):
+                    points = trial
+                k -= 1
+            for k in range(len(points)):
+                a = len(points[k].get('acts') or ()) - 1
+                while a >= 0 and tests[0] < 140:
+                    acts = points[k]['acts']
+                    trial = list(points)
+                    trial[k] = dict(points[k], acts=acts[:a] + acts[a + 1:])
+                    if fails(i, trial):
+                        points = trial
+                    a -= 1
+            if len(points) < len(ops[i]['world']['points']) or any(
+                    len(p.get('acts') or ()) < len(q.get('acts') or ())
+                    for p, q in zip(points, ops[i]['world']['points'])):
+                ops[i] = dict(ops[i], world=dict(ops[i]['world'],
+                                                 points=points))
+                changed = True
+        return ops if changed else None
+
     def shrink_candidates(self, config, ops):
         """Consecutive advances merged into one (same instants); then the
+        world plan of the archive ops thinned out; then the
         count of a bulk op (and with it the batch size of the archive ops
         that follow, never above the count) bisected down while the same
         signature persists."""
@@ -946,6 +1349,10 @@ class TraceSim(enginemod.Engine):
             else:
                 merged.append(dict(op))
         if len(merged) < len(ops):
+            yield config, merged
+        slim = self._shrink_world(config, merged)
+        if slim is not None:
+            merged = slim
             yield config, merged
         bulks = [i for i, op in enumerate(merged) if op.get('op') == 'bulk'
                  and int(op.get('count', 0)) > 1]
@@ -1148,9 +1555,15 @@ class TraceSim(enginemod.Engine):
             ops_v = history[:j] + [dict(history[j], fault=fault),
                                    {'op': 'check'}]
             if rec_rng.random() < config['recover_frac']:
+                again = dict(history[j])
+                if again.get('world'):
+                    # (what happened during the first pass has happened;
+                    # the ensemble is as slow as it was)
+                    again['world'] = {k: v for k, v in again['world'].items()
+                                      if k != 'points'}
                 ops_v += [{'op': 'advance',
                            'dt': rec_rng.choice([0.5, 61.0, exp_t + 1.0])},
-                          dict(history[j]), {'op': 'check'}]
+                          again, {'op': 'check'}]
                 total.probes['recoveries'] += 1
             res = self._run(config, seed, ops_v[j:], keep_log,
                             resume=prefix)
